@@ -174,6 +174,7 @@ class CaseResult:
         self.paths = 0
         self.vcs = []
         self.inapplicable = []     # (path_id, reason)
+        self.inapplicable_inputs = {}      # path_id -> declared inputs of the path that left the subset
         self.outcomes = []         # per path: dict(path_id, outcome, pc, facts, inputs)
         self.errors = []
         self.solver_time = 0.0
@@ -203,6 +204,7 @@ def explore(case_name, run, fsem="std", max_paths=None, solver_options=None):
             p.outcome = "ended"
         except Inapplicable as e:
             res.inapplicable.append((pid, str(e)))
+            res.inapplicable_inputs[pid] = dict(p.ghost.get("inputs") or {})
         finally:
             sym.set_cur(None)
         res.paths += 1
